@@ -51,12 +51,19 @@ func (e *Env) confirmedDeviation(drv string, op *plan.Op, r *plan.Res, x refExpe
 		return ""
 	}
 	if op.Fn == "new" && op.Src == nil && !op.Shared && validCount64(op.N) {
-		// default source: outputs cannot be compared; only "valid alone, invalid here" counts
-		if why := e.judgeAgainstRef(op, r, x); why != "" {
-			s := e.Solo(drv, *op)
-			if s.Died == "" && e.judgeAgainstRef(op, s, x) == "" {
-				return why + " (the same call alone returns a valid mnemonic)"
-			}
+		// default source: the sentences are random and cannot be compared, and whether a random
+		// sentence is valid is a matter of the lists and the checksum (other properties); what
+		// must not depend on history or concurrency is the shape of the outcome: error or not,
+		// and how many words
+		s := e.Solo(drv, *op)
+		if s.Died != "" {
+			return ""
+		}
+		if a, b := errClassOf(r.Err), errClassOf(s.Err); a != b {
+			return fmt.Sprintf("on the default source the call returns error class %s (%s) here and %s (%s) when run alone", a, errText(r.Err), b, errText(s.Err))
+		}
+		if a, b := len(strings.Fields(string(unhex(r.Out)))), len(strings.Fields(string(unhex(s.Out)))); a != b {
+			return fmt.Sprintf("on the default source the call returns %d words here and %d when run alone", a, b)
 		}
 		return ""
 	}
